@@ -987,7 +987,7 @@ def elliprg(ctx, x, y, z):
         T2 = -0.5*(x-z)*(y-z)*ctx.elliprd(x,y,z)/3
         T3 = 0.5*ctx.sqrt(x)*ctx.sqrt(y)/ctx.sqrt(z)
         return T1,T2,T3
-    return ctx.sum_accurately(terms)
+    return +ctx.sum_accurately(terms)
 
 
 @defun_wrapped
